@@ -39,6 +39,7 @@ def op_val(o):
         return [4, o[1], int(o[2])]
     if t == 'startdef': return [5]
     if t == 'enddef': return [6]
+    if t == 'sync': return [7, o[1], o[2]]
     raise ValueError(o)
 
 def c_src(s): return '{| s_tok := %s; s_addr := %s; s_rid := %s; s_role := %s |}' % tuple(cN(x) for x in s)
@@ -85,6 +86,43 @@ def run_impl(name, cases, release=False):
 
 def run_model(name, cases):
     return coqrun.eval_terms(name, PRE, [case_coq(c) for c in cases])
+
+# histories with the session glue (Model/RibSession.v): ('sync', counter, addr) sets a session's
+# prefix-limit counter to the number of prefixes the RIB holds from the peer
+SPRE = 'From RB Require Import Base.Val Model.Rib Model.RibSession.\nOpen Scope N_scope.'
+
+def sop_coq(o):
+    if o[0] == 'sync':
+        return '(Sync %s %s)' % (cN(o[1]), cN(o[2]))
+    return '(Tbl %s)' % op_coq(o)
+
+def scase_coq(c):
+    return 'run_scase %s %s %s %s' % (cN(c['shard']), clist([cN(x) for x in c['addrs']]),
+                                      clist([cN(x) for x in c['ctrs']]), clist([sop_coq(o) for o in c['ops']]))
+
+def run_smodel(name, cases):
+    return coqrun.eval_terms(name, SPRE, [scase_coq(c) for c in cases])
+
+def add_syncs(ops):
+    """the repaired caller discipline of the daemon: a session (Source token) that starts acting for a
+    peer first synchronises its counter with the RIB, and does so again after a purge of the peer's
+    routes that ran without the counter; Table::drop ends the peer's session"""
+    out = []
+    cur = {}
+    for o in ops:
+        if o[0] in ('ins', 'rem'):
+            tok, addr = o[1][0], o[1][1]
+            uses = (o[8] is not None) if o[0] == 'ins' else (o[4] is not None)
+            if uses and cur.get(addr) != tok:
+                out.append(('sync', tok, addr)); cur[addr] = tok
+        if o[0] == 'drop' and o[1] != 0 and o[3] is not None and cur.get(o[2]) != o[3]:
+            out.append(('sync', o[3], o[2])); cur[o[2]] = o[3]
+        out.append(o)
+        if o[0] == 'drop' and o[1] == 0:
+            cur.pop(o[2], None)
+        if o[0] == 'drop' and o[1] != 0 and o[3] is None and o[2] in cur:
+            out.append(('sync', cur[o[2]], o[2]))
+    return out
 
 def case_to_json(c):
     return json.loads(json.dumps(c))
